@@ -257,6 +257,11 @@ func (evkg EvaluationKeyGenProtocol) GenEvaluationKey(share EvaluationKeyGenShar
 		return fmt.Errorf("cannot GenEvaluationKey: share LevelP != evk LevelP")
 	}
 
+	if d := share.BaseTwoDecompositionVectorSize(); share.BaseTwoDecomposition != evk.BaseTwoDecomposition ||
+		!slices.Equal(d, evk.BaseTwoDecompositionVectorSize()) || !slices.Equal(d, crp.BaseTwoDecompositionVectorSize()) {
+		return fmt.Errorf("cannot GenEvaluationKey: share, crp and evk BaseTwoDecomposition do not match")
+	}
+
 	m := share.Value
 	p := crp.Value
 
